@@ -8,7 +8,7 @@ from ..world import BASE_CLOCK
 
 ID = "C16"
 LEVEL = "exploration"
-RUNS = {"quick": 8000, "thorough": 40000}
+RUNS = {"quick": 10000, "thorough": 40000}
 RULE = ("seeded kernel-tracer simulation: each thread emits user events on the simulated clock while a kernel actor records context switches "
         "(and, in raw mode, arbitrary events incl. jumbo ones) with true timestamps into a ring buffer that is drained later inside OU[ .. OU], "
         "with seeded delay (insertion depth), optional shuffling inside a batch, several regions per stream, empty regions, regions reaching "
